@@ -48,7 +48,11 @@ func newSc(a *App, mon *Mon, name string, seed int64, p types.Params, mid, poor 
 }
 
 func (s *Sc) define(name string) {
-	s.r.Msg(types.NewMsgDefineService(name, "d", nil, s.A.Owners[0], "a", goodSchemas), "")
+	sch := goodSchemas
+	if s.r.rng.Intn(3) == 0 {
+		sch = strictSchemas
+	}
+	s.r.Msg(types.NewMsgDefineService(name, "d", nil, s.A.Owners[0], "a", sch), "")
 }
 
 func (s *Sc) bind(svc string, prov, owner sdk.AccAddress, dep int64, pricing string, qos uint64) StepResult {
@@ -89,8 +93,10 @@ func (s *Sc) pendingOf(ctxID string, prov sdk.AccAddress) []string {
 func (s *Sc) respond(rid string, prov sdk.AccAddress, kind int) StepResult {
 	result, output := goodResult, goodOutput
 	switch kind {
+	case 0:
+		output = goodOutputs[s.r.rng.Intn(len(goodOutputs))]
 	case 1:
-		output = `{"body":{}}`
+		output = malformedOutputs[s.r.rng.Intn(len(malformedOutputs))]
 	case 2:
 		result, output = `{"code":500,"message":"e"}`, ""
 	}
@@ -186,6 +192,8 @@ func runCadence(a *App, mon *Mon, seed int64, c cadenceCase) {
 			case "pause-start-same":
 				op("pause")
 				op("start")
+			case "restart":
+				s.r.Restart()
 			case "update-total":
 				if c.Module {
 					s.r.Mod(ModOp{Op: "update", CtxID: id, Consumer: hexs(cons), Total: c.Total + 1}, "")
@@ -203,6 +211,9 @@ func runCadence(a *App, mon *Mon, seed int64, c cadenceCase) {
 			}
 		}
 		if c.Op == "pause" && c.Start > 0 && b == c.OpAt+c.Start {
+			op("start")
+		}
+		if c.Op == "restart" && c.Start > 0 && b == c.OpAt+c.Start {
 			op("start")
 		}
 		if c.Op == "kill" && c.Start > 0 && b == c.OpAt+c.Start {
@@ -223,11 +234,14 @@ func cadenceCases() []cadenceCase {
 					out = append(out, cadenceCase{T: T, F: F, Total: total, Op: "none", Answer: ans})
 				}
 				span := int(F)*2 + int(T) + 1
-				for _, op := range []string{"pause", "kill", "update-total", "update-time", "pause-start-same"} {
+				for _, op := range []string{"pause", "kill", "update-total", "update-time", "pause-start-same", "restart"} {
 					for at := 0; at <= span; at++ {
 						starts := []int{0}
 						if op == "pause" || op == "kill" {
 							starts = []int{0, 1, 2, int(T), int(T) + 1, int(F), int(F) + 1, int(F) + int(T) + 1}
+						}
+						if op == "restart" {
+							starts = []int{0, 1, int(T) + 1}
 						}
 						for _, st := range starts {
 							out = append(out, cadenceCase{T: T, F: F, Total: total, Op: op, OpAt: at, Start: st, Answer: (at + st) % 3})
@@ -388,6 +402,16 @@ func runFunds(a *App, mon *Mon, seed int64, c fundsCase) {
 	s.bind("svc", p2, s.A.Owners[1], 100000, price(base), 1)
 	cons := s.A.Consumers[1] // the "mid" consumer holds exactly bal
 	var ids []string
+	if c.Module {
+		s.r.SetStateCbKill(c.Paid == 0)
+		// a module with a response callback only must not get a context
+		var ph []string
+		for _, p := range []sdk.AccAddress{p1, p2} {
+			ph = append(ph, hexs(p))
+		}
+		s.r.Mod(ModOp{Op: "create", Service: "svc", Providers: ph, Consumer: hexs(cons), Input: goodInput, FeeCap: unit, Timeout: 2,
+			Repeated: true, Freq: 3, Total: 3, Threshold: 1, Module: halfModule}, "module without state callback")
+	}
 	for i := 0; i < c.NCtx; i++ {
 		if c.Module {
 			s.r.w.Fund("modconsumer-extra", s.A.ModCons, sdk.ZeroInt())
@@ -436,6 +460,7 @@ func fundsCases() []fundsCase {
 		out = append(out, fundsCase{Margin: 0, NCtx: 2, Paid: 0, Super: true, Base: base})
 		out = append(out, fundsCase{Margin: -1, NCtx: 1, Paid: 1, Module: true, Base: base})
 		out = append(out, fundsCase{Margin: 0, NCtx: 2, Paid: 1, Module: true, Base: base})
+		out = append(out, fundsCase{Margin: -1, NCtx: 2, Paid: 0, Module: true, Base: base})
 	}
 	return out
 }
@@ -464,7 +489,12 @@ func runPrice(a *App, mon *Mon, seed int64, c priceCase) {
 			genesisTime.Add(20*time.Second).Format(time.RFC3339), genesisTime.Add(25*time.Second).Format(time.RFC3339))
 	}
 	if c.VolDisc != "" {
-		pricing += fmt.Sprintf(`,"promotions_by_volume":[{"volume":%d,"discount":"%s"},{"volume":%d,"discount":"0.1"}]`, c.VolAt, c.VolDisc, c.VolAt+2)
+		// the later tier is sometimes the cheaper, sometimes the dearer one (tiers need not be monotone)
+		second := "0.1"
+		if c.VolAt%2 == 0 {
+			second = "0.9"
+		}
+		pricing += fmt.Sprintf(`,"promotions_by_volume":[{"volume":%d,"discount":"%s"},{"volume":%d,"discount":"%s"}]`, c.VolAt, c.VolDisc, c.VolAt+2, second)
 	}
 	pricing += "}"
 	p1 := s.A.SignProv[0]
@@ -504,9 +534,9 @@ func runPrice(a *App, mon *Mon, seed int64, c priceCase) {
 
 func priceCases() []priceCase {
 	var out []priceCase
-	for _, base := range []string{"0", "1", "2", "3", "10", "0.9", "1.5", "100"} {
-		for _, td := range []string{"", "0.1", "0.5", "0.9", "0.999", "0.000000000000000001"} {
-			for _, vd := range []string{"", "0.5", "0.25"} {
+	for _, base := range []string{"0", "1", "2", "3", "5", "7", "10", "0.9", "1.5", "13", "100"} {
+		for _, td := range []string{"", "0.1", "0.5", "0.9", "0.7", "0.999", "0.000000000000000001"} {
+			for _, vd := range []string{"", "0.5", "0.25", "0.8", "0.3"} {
 				for _, va := range []uint64{1, 2, 4} {
 					if vd == "" && va != 1 {
 						continue
@@ -671,15 +701,19 @@ func runEarn(a *App, mon *Mon, seed int64, c earnCase) {
 	s.bind("svc", short2, o3, 1000, price("1"), 1)
 	s.bind("svc", short3, o2, 1000, price("1"), 1)
 	s.bind("svc", o1, o1, 1000, price("2"), 1) // an owner that is its own provider
+	q, pff, p19 := s.A.SignProv[5], s.A.SignProv[6], s.A.OddProv[8]
+	s.bind("svc", q, o1, 1000, price("4"), 1)   // 20 bytes = p19 followed by 0x01
+	s.bind("svc", p19, o2, 1000, price("6"), 1) // 19-byte prefix of q, another owner; answers for itself
+	s.bind("svc", pff, o3, 1000, price("8"), 1) // address starting with 0xff
 	if c.WaWhen == 1 {
 		s.r.Msg(types.NewMsgSetWithdrawAddress(o1, s.A.Wallets[0]), "")
 		s.r.Msg(types.NewMsgSetWithdrawAddress(o2, s.A.Wallets[1]), "")
 	}
 	cons := s.A.Consumers[0]
 	earnRound := func() {
-		id := s.call("svc", []sdk.AccAddress{p1, p2, p3, p4, o1}, cons, 100, 2, false, false, 0, 0)
+		id := s.call("svc", []sdk.AccAddress{p1, p2, p3, p4, o1, q, p19, pff}, cons, 100, 2, false, false, 0, 0)
 		s.block()
-		for _, pr := range []sdk.AccAddress{p1, p2, p3, p4, o1} {
+		for _, pr := range []sdk.AccAddress{p1, p2, p3, p4, o1, q, p19, pff} {
 			for _, rid := range s.pendingOf(id, pr) {
 				s.respond(rid, pr, 0)
 			}
@@ -693,7 +727,8 @@ func runEarn(a *App, mon *Mon, seed int64, c earnCase) {
 	}
 	earnRound()
 	type wd struct{ o, p sdk.AccAddress }
-	ws := []wd{{o2, short1}, {o3, short2}, {o2, short3}, {o1, p1}, {o1, nil}, {o2, nil}, {o3, p4}, {o1, p2}, {o2, p3}, {o1, o1}, {o3, nil}, {o2, p1}, {o1, short1}}
+	ws := []wd{{o2, short1}, {o3, short2}, {o2, short3}, {o1, p1}, {o1, nil}, {o2, nil}, {o3, p4}, {o1, p2}, {o2, p3}, {o1, o1}, {o3, nil}, {o2, p1}, {o1, short1},
+		{o2, p19}, {o1, q}, {o3, pff}, {o2, p19}, {o3, nil}}
 	rng := rand.New(rand.NewSource(int64(c.Order)*7919 + 1))
 	rng.Shuffle(len(ws), func(i, j int) { ws[i], ws[j] = ws[j], ws[i] })
 	for i, w := range ws {
